@@ -16,18 +16,26 @@ PROPERTY = "C13"
 MANIFEST = {
     "text": "Generated-input search (Hypothesis) over dimensions, grid shapes, both align_corners conventions, dtypes, "
             "batch sizes, constructed invariant affine pairs, affine generator pairs (general and commuting), smooth "
-            "band-limited voxel-space fields, all truncation orders 0..5 and iteration counts. Oracles: float64 numpy "
+            "band-limited voxel-space fields, all truncation orders 0..5, and every argument the API exposes for the "
+            "exponential and the logarithm (expv: steps 0..7 even and odd, scale of either sign, inverse; logv: num_iters, "
+            "bch_terms 0..5, sigma, exp_steps, spacing as list or per-item tensor; each also omitted to exercise the "
+            "defaults). Oracles: float64 numpy "
             "closed forms (composed affine map; matrix commutators of homogeneous generators for the Lie bracket and "
             "for every partial sum of the documented BCH series), exact metamorphic relations (zero field identity, "
-            "bilinearity, antisymmetry, voxel-space independence of the align_corners convention) and explicit, "
-            "stated error bounds for the approximate clauses (BCH truncation error growth, log(exp(v)) = v). "
+            "bilinearity, antisymmetry, independence of batch items, voxel-space independence of the align_corners "
+            "convention) and explicit, stated error bounds for the approximate clauses (BCH truncation error growth; "
+            "logv(expv(v, scale, steps, inverse), ...) = +-scale v with a bound that is a stated function of the step "
+            "counts and the iteration count). "
             "Exploration: no absence proof; the exact facets pin every grid point to K*eps, discrete errors "
             "(operand order, a coefficient, a sign, a dropped align_corners) are 3-10 orders above the bounds.",
     "note": "Trusted: numpy/scipy (matmul, expm/logm in the self-test), the reference construction of normalised sample "
             "coordinates (props/c11.py), the docstrings of compose_flows / compose_svfs / lie_bracket as the "
             "specification of operand order, series and bracket sign. CPU only; float32/float64; shapes <= 12 (exact "
             "facets), <= 40 (2-D) / 20 (3-D) for the smooth-field facets. The smooth-field bounds (bch_smooth growth "
-            "slack, log_exp bound) are calibrated on the fixed tree with a safety factor >= 3, not derived.",
+            "slack, discretisation floor of the log_exp bound) are calibrated on the fixed tree with a safety factor >= 3, "
+            "not derived; the step-count and iteration terms of the log_exp bound are first-order derivations with an "
+            "allowance factor. Not observable within the stated bounds (hence not claimed): whether logv forwards exp_steps "
+            "/ sigma to its helpers and an off-by-one of num_iters (the converged result changes by less than the bound).",
     "technique": "property-based testing (Hypothesis) with closed-form reference models and metamorphic relations",
 }
 ASSUMPTIONS = [
@@ -39,18 +47,37 @@ ASSUMPTIONS = [
     "scipy logm(expm(Gv) expm(Gu)))",
     "finite-difference brackets use spacing cast to float32 by deepali, hence eps32 terms in the bounds even for float64",
     "bch_smooth (CALIBRATED, not derived): e_k = max|exp(bch_k(u,v)) - exp(v) o exp(u)| in samples for smooth "
-    "band-limited pairs with amplitude a <= 1 sample; asserted: e_{k+1} - e_k <= 0.25 (e_0 + 0.01 a), k = 0..4; "
+    "band-limited pairs with amplitude a <= 1 sample, every exponential with the same generated steps in 2..8; "
+    "asserted: e_{k+1} - e_k <= 0.25 (e_0 + 0.01 a), k = 0..4; "
     "largest value of (e_{k+1} - e_k)/(e_0 + 0.01 a) measured on the fixed tree over 16906 distinct generated cases "
-    "is 0.066 (safety 3.8; later terms are legitimately up to ~|Jac|/6 ~ 0.1 of the first correction). NOT asserted "
+    "with steps 5..7 is 0.066, re-measured for steps 2, 3, 4, 8 (3238 distinct cases each): 0.059, 0.060, 0.047, 0.046 "
+    "(safety 3.8; later terms are legitimately up to ~|Jac|/6 ~ 0.1 of the first correction). NOT asserted "
     "because not robust on the correct tree: pairwise ratio e_{k+1}/e_k (measured up to 1.48 through cancellation), "
     "e_1 <= 0.6 e_0 (measured e_1/e_0 up to 1.03 for pairs with e_0 >= 0.01 a on coarse grids, 1.34 for nearly "
     "commuting ones), and a smaller floor 1e-3 a (heavy tail for nearly commuting pairs)",
-    "log_exp (CALIBRATED, not derived): max|logv(expv(v)) - v| <= kappa (0.5 a^2 + 0.25 a) samples, "
-    "kappa = D (pi w_max/(n_min-1))^2, for a <= 2 samples, grids >= 12 per axis, wave numbers <= 2, default logv "
-    "parameters with consistent spacing; largest measured error/bound on the fixed tree over 1487 distinct generated "
-    "cases is 0.31 (safety 3.2); a halving relation err(a/2) <= c err(a) is not asserted (measured ratios 0.1..0.57 "
-    "leave no robust constant below 1 with a safety margin); independence of align_corners is checked with a derived "
-    "rounding bound",
+    "log_exp: r = logv(expv(v, scale=s, steps=k, inverse=i), num_iters=m, bch_terms=b, sigma=g, exp_steps=k', "
+    "spacing consistent with the convention), w = +-s v the scaled field of amplitude a <= 2 samples (v = w/(+-s), "
+    "0.25 <= |s| <= 4), grids >= 12 per axis, wave numbers <= 2, k, k' in 3..7 or omitted (5), m in 1..6 or omitted (5), "
+    "b in 0..5 or omitted (1), g in {omitted (1.0), None, 0.5, 1, 1.5}. Asserted: max|r - w| <= kappa (0.5 a^2 + 0.25 a) "
+    "+ (2^-k + 2^-k') P + min(1, L)^m P samples, kappa = D (pi w_max/(n_min-1))^2, P = max|Dw.w| (float64 central "
+    "differences), L = largest adjacent-sample difference of w. First term CALIBRATED (interpolation error floor, "
+    "form and constants of the original facet, which used only the defaults). Second term DERIVED: k squarings of "
+    "id + w/2^k are Euler steps, expv_k(w) = exp(w - 2^-(k+1) Dw.w + O(4^-k)); logv solves expv_k'(-v') o expv_k(w) = id, "
+    "so v' - w = -(2^-k + 2^-k')/2 Dw.w to first order (the Euler errors of the forward and the inverse exponential add "
+    "up); allowance factor 2. Third term: the start value exp(w) - id is off by Dw.w/2 and every iteration contracts "
+    "the error by about the slope of w (first-order BCH remainder [d, w]/2); allowance 2 on the start error. "
+    "Largest measured error/bound on the fixed tree: 0.33 over about 19400 distinct generated cases (13 seeds; safety 3.0); per value of each generated argument "
+    "the maximum lies between 0.26 and 0.32, i.e. the stated dependence on k, k', m is adequate and b, g do not "
+    "matter at this resolution. Without the second and third term (original bound) the widened generator reaches "
+    "0.64 (steps=3). A halving relation err(a/2) <= c err(a) is not asserted (measured ratios 0.1..0.57 leave no "
+    "robust constant below 1 with a safety margin); independence of align_corners is checked with a derived "
+    "rounding bound (function of steps, iterations and BCH nesting depth, see rounding_bound)",
+    "expv arguments in convention_independence and log_exp: the generated field is the scaled field scale*v (sign of "
+    "`inverse` included) and the argument passed is v = field/scale, so amplitude and slope of what is exponentiated "
+    "(and hence the bounds) do not depend on the generated scale; documented: `scale` is a constant factor of the "
+    "flow field, inverse=True is equivalent to negating it",
+    "batch items are independent: lie_bracket on a batch equals lie_bracket on each item (with the item's row of a "
+    "per-item (N, D) spacing tensor, as documented for flow_derivatives) within the rounding bound of one bracket",
     "logv / compose_svfs are called with `spacing` consistent with the convention (2/(n-1) resp. 2/n): with "
     "spacing=None deepali always uses 2/(n-1), which is documented behaviour of flow_derivatives",
 ]
@@ -147,6 +174,18 @@ def lipschitz(f: np.ndarray) -> float:
     for ax in range(2, f.ndim):
         if f.shape[ax] > 1:
             out = max(out, float(np.abs(np.diff(f, axis=ax)).max()))
+    return out
+
+
+def advection_size(f: np.ndarray) -> float:
+    """max |Df.f| over batch items, components and samples of an (N, D, ..., X) voxel-unit field: (Df.f)_i =
+    sum_j d_j f_i f_j with central differences (one-sided at the boundary), component j along tensor axis D-1-j."""
+    N, D = f.shape[:2]
+    out = 0.0
+    for b in range(N):
+        for i in range(D):
+            adv = sum(np.gradient(f[b, i], axis=D - 1 - j) * f[b, j] for j in range(D))
+            out = max(out, float(np.abs(adv).max()))
     return out
 
 
@@ -275,23 +314,96 @@ def convention_cases(draw):
         "key": draw(st.integers(0, 10 ** 6)),
     }
     if op == "expv":
-        case["steps"] = draw(st.integers(0, 6))
+        case["steps"] = draw(st.one_of(st.none(), st.integers(0, 7)))
         case["inverse"] = draw(st.booleans())
+        case["scale"] = draw(scales())
     if op == "logv":
-        case["iters"] = draw(st.sampled_from([1, 3, 5, 5]))
-        case["bch_terms"] = draw(st.sampled_from([0, 1, 1, 2]))
-        case["sigma"] = draw(st.sampled_from([1.0, 1.0, None]))
-        case["exp_steps"] = draw(st.sampled_from([None, 4, 6]))
+        case["steps"] = draw(st.one_of(st.none(), st.integers(2, 7)))  # of the exponential that is inverted
+        case["iters"] = draw(st.one_of(st.none(), st.integers(0, 6)))  # None: argument omitted (default 5)
+        case["bch_terms"] = draw(st.one_of(st.none(), st.integers(0, 5)))  # None: omitted (default 1)
+        case["sigma"] = draw(st.sampled_from(["default", None, 0.5, 1.0, 1.5]))  # "default": omitted (1.0)
+        case["exp_steps"] = draw(st.one_of(st.none(), st.integers(2, 7)))
     return case
 
 
-def voxel_fields(case, second=False):
+def scales():
+    """`scale` of expv: None (omitted) or a non-zero factor of either sign with 0.25 <= |scale| <= 4."""
+    mag = st.one_of(st.sampled_from([1.0, 0.5, 2.0]), gen.qfloat(0.25, 4.0, 0.05))
+    return st.one_of(st.none(), st.builds(lambda m, neg: -m if neg else m, mag, st.booleans()))
+
+
+def signed_scale(case) -> float:
+    """Factor by which expv(., scale=case['scale'], inverse=case['inverse']) multiplies the velocity field."""
+    s = case.get("scale")
+    s = 1.0 if s is None else float(s)
+    return -s if case.get("inverse") else s
+
+
+def expv_kwargs(case) -> dict:
+    kw = {}
+    if case.get("steps") is not None:
+        kw["steps"] = case["steps"]
+    if case.get("scale") is not None:
+        kw["scale"] = case["scale"]
+    if case.get("inverse"):
+        kw["inverse"] = True
+    return kw
+
+
+def logv_kwargs(case) -> dict:
+    """Only the generated arguments are passed, omitted ones exercise the defaults of the signature."""
+    kw = {}
+    if case.get("iters") is not None:
+        kw["num_iters"] = case["iters"]
+    if case.get("bch_terms") is not None:
+        kw["bch_terms"] = case["bch_terms"]
+    if case.get("sigma", "default") != "default":
+        kw["sigma"] = case["sigma"]
+    if case.get("exp_steps") is not None:
+        kw["exp_steps"] = case["exp_steps"]
+    return kw
+
+
+def rounding_bound(eps, n, a, L, D, steps, iters=None, bch_terms=0):
+    """Derived bound (index units) on the difference of two evaluations of expv (iters=None) or logv that differ
+    only by rounding, for fields of amplitude a and adjacent-sample difference L on grids of at most n samples.
+
+    base: positions carry n*eps of index error, which is multiplied by the adjacent-sample difference L of the
+    sampled field; values carry eps*amplitude.  expv: squaring doubles absolute errors, which were introduced at
+    2^-(k-j) scale: ~ steps * base, amplified by prod_j (1 + L_j/2) <= exp(L_final) with L_final <= e^L - 1 the
+    Lipschitz constant of the exponential.  logv, per iteration: one exponential, one composition, and the BCH
+    series whose Jacobians use a spacing cast to float32 (relative eps32 on each Jacobian entry <= L, times
+    |u| <= a, D terms: e1); a bracket applied to a field that carries an absolute error d returns an error
+    <= g d with g = D (L + 2 a) (Jac(v) d <= D L d, Jac(d) v <= D 2 d a), so the nested terms of the series with
+    coefficients 1/2, 1/12, 1/12, 1/48, 1/48 (twice the coefficient as allowance) contribute
+    e1 (1, g/6, g/6, g^2/24, g^2/24)."""
+    base = 64 * eps * (n * max(L, 0.05) + max(a, 1.0))
+    if iters is None and steps == 0:
+        return base
+    ampl = math.exp(math.expm1(min(L, 2.0)))
+    bound = base * (steps + 1) * ampl
+    if iters is None:
+        return bound
+    g = D * (max(L, 0.05) + 2.0 * max(a, 1.0))
+    F = [1.0, 1.0, 1.0 + g / 6, 1.0 + g / 3, 1.0 + g / 3 + g * g / 24, 1.0 + g / 3 + g * g / 12][bch_terms]
+    e1 = 64 * max(EPS32, eps) * D * max(L, 0.05) * max(a, 1.0)
+    return max(iters, 1) * (bound + base + F * e1)
+
+
+def voxel_fields(case, second=False, vary_items=False):
+    """(N, D, ..., X) voxel-unit fields; vary_items: every batch item gets its own wave pattern, amplitude and
+    orientation (so that mixing up batch items is observable), otherwise items b >= 1 are -0.6 times item 0."""
     D, shape, N = case["D"], case["shape"], case["N"]
     items = []
     for b in range(N):
         waves = case["waves"] if not second else case["waves"][::-1]
         amp = case["amp"] * (1.0 if b == 0 else -0.6) * (0.8 if second else 1.0)
-        f = vox_smooth(shape, waves, amp, flip=second)
+        flip = second
+        if vary_items and b >= 1:
+            waves = [waves[(k + b) % D] for k in range(D)]
+            amp = case["amp"] * (1.0, -0.6, 0.8)[b % 3] * (0.8 if second else 1.0)
+            flip = second != (b == 2)
+        f = vox_smooth(shape, waves, amp, flip=flip, shift=b if vary_items else 0)
         if case["noise"]:
             f = f + hash_noise(f.shape, case["key"] + 17 * b + (5 if second else 0), -case["noise"], case["noise"])
         items.append(f)
@@ -306,45 +418,46 @@ def run_convention(case):
     eps = eps_of(dt)
     fv = voxel_fields(case)
     gv = voxel_fields(case, second=True) if op == "compose" else None
+    # expv: the generated field is the *scaled* velocity field scale * v (sign of `inverse` included), the argument
+    # is v = field / scale, so amplitude and slope of what is exponentiated do not depend on the generated scale
+    sc = signed_scale(case) if op == "expv" else 1.0
     out = {}
     for ac in (True, False):
-        f = torch.tensor(to_norm(fv, shape, ac), dtype=dt)
+        f = torch.tensor(to_norm(fv / sc, shape, ac), dtype=dt)
         if op == "compose":
             g = torch.tensor(to_norm(gv, shape, ac), dtype=dt)
             r = U.compose_flows(f, g, align_corners=ac)
         elif op == "expv":
-            r = U.expv(f, steps=case["steps"], align_corners=ac, inverse=case["inverse"])
+            r = U.expv(f, align_corners=ac, **expv_kwargs(case))
         else:
             sp = [float(s) for s in unit_of(shape, ac)]
-            e = U.expv(f, align_corners=ac)
-            r = U.logv(e, num_iters=case["iters"], bch_terms=case["bch_terms"], sigma=case["sigma"], spacing=sp,
-                       exp_steps=case["exp_steps"], align_corners=ac)
+            e = U.expv(f, align_corners=ac, **expv_kwargs(case))
+            r = U.logv(e, spacing=sp, align_corners=ac, **logv_kwargs(case))
         if r.shape != f.shape:
             raise Violation("convention_shape", f"{op}: result shape {tuple(r.shape)} != {tuple(f.shape)}")
         out[ac] = to_vox(r, shape, ac)
-    # derived rounding bound (index units): positions carry n*eps of index error, which is multiplied by the
-    # adjacent-sample difference L of the sampled field; values carry eps*amplitude.
     n = max(shape)
-    a = float(np.abs(fv).max()) + (float(np.abs(gv).max()) if gv is not None else 0.0)
+    a = float(np.abs(fv).max()) * max(1.0, 1.0 / abs(sc)) + (float(np.abs(gv).max()) if gv is not None else 0.0)
     L = lipschitz(gv if gv is not None else fv)
-    base = 64 * eps * (n * max(L, 0.05) + max(a, 1.0))
     if op == "compose":
-        bound = base
+        bound = rounding_bound(eps, n, a, L, D, 0)
+    elif op == "expv":
+        bound = rounding_bound(eps, n, a, L, D, 5 if case.get("steps") is None else case["steps"])
     else:
-        # squaring doubles absolute errors, which were introduced at 2^-(k-j) scale: ~ steps * base, amplified by
-        # prod_j (1 + L_j/2) <= exp(L_final) with L_final <= e^L - 1 the Lipschitz constant of the exponential
-        ampl = math.exp(math.expm1(min(L, 2.0)))
-        steps = case.get("steps", max(case.get("exp_steps") or 5, 5))  # logv: expv default and exp_steps
-        bound = base * (steps + 1) * ampl
-        if op == "logv":
-            # per iteration: one exponential, one composition, BCH with Jacobians whose spacing is cast to
-            # float32 (relative eps32 on each Jacobian entry <= L, times |u| <= a, D terms)
-            it = case["iters"]
-            bound = it * (bound + base + 64 * EPS32 * D * max(L, 0.05) * max(a, 1.0))
+        steps = max(case.get("steps") or 5, case.get("exp_steps") or 5)  # documented default of expv: 5
+        iters = 5 if case.get("iters") is None else case["iters"]
+        bt = 1 if case.get("bch_terms") is None else case["bch_terms"]
+        bound = rounding_bound(eps, n, a, L, D, steps, iters, bt)
     kind = {"compose": "convention_dependent_compose", "expv": "convention_dependent_expv", "logv": "convention_dependent_logv"}[op]
     ratio = check_close(out[True], out[False], bound, kind,
                         f"voxel-space {op} differs between align_corners=True and False (a={case['amp']}, shape={shape})")
     labels = [f"op={op}", f"D={D}", case["dtype"], f"N={case['N']}", "noise" if case["noise"] else "smooth"]
+    if op == "expv":
+        labels += [f"steps={case.get('steps')}", "scale=omitted" if case.get("scale") is None else
+                   ("scale<0" if case["scale"] < 0 else "scale>0"), f"inverse={bool(case.get('inverse'))}"]
+    if op == "logv":
+        labels += [f"exp_steps={case.get('exp_steps')}", f"iters={case.get('iters')}", f"bch_terms={case.get('bch_terms')}",
+                   f"sigma={case.get('sigma', 'default')}"]
     return {"ratio": ratio, "nontrivial": case["amp"] >= 0.3 and len(set(shape)) > 1, "labels": labels}
 
 
@@ -432,15 +545,37 @@ def free_params(draw, D):
             "t": draw(st.lists(gen.qfloat(-1.0, 1.0, 0.01), min_size=D, max_size=D))}
 
 
-def spacing_arg(case):
-    """The `spacing` argument in the generated form (list, scalar when isotropic, or (N, D) tensor)."""
+ITEM_FACTORS = (1.0, 1.5, 0.75)
+
+
+def item_spacing(case, b):
+    """Spacing (x, ...) of batch item b: the generated spacing for every item, except for spacing_form
+    'tensor_items' (documented (N, D) tensor with a separate spacing per batch item), where item b uses the
+    generated spacing rotated by b components and multiplied by (1, 1.5, 0.75)[b]."""
+    sp = [float(v) for v in case["spacing"]]
+    if case.get("spacing_form") == "tensor_items" and b:
+        D = len(sp)
+        sp = [sp[(c + b) % D] * ITEM_FACTORS[b % 3] for c in range(D)]
+    return sp
+
+
+def spacing_arg(case, items=None):
+    """The `spacing` argument in the generated form (list, scalar when isotropic, or (N, D) tensor with equal or
+    different rows); items: batch items of a sub-batch (rows of the tensor forms)."""
     sp = case["spacing"]
     form = case.get("spacing_form", "list")
     if form == "scalar" and len(set(sp)) == 1:
         return sp[0]
-    if form == "tensor":
-        return torch.tensor([sp] * case["N"], dtype=torch.float64)
+    if form in ("tensor", "tensor_items"):
+        items = range(case["N"]) if items is None else items
+        return torch.tensor([item_spacing(case, b) for b in items], dtype=torch.float64)
     return list(sp)
+
+
+def item_lattices(case):
+    """Per batch item: lattice coordinates (..., X, D) and smallest spacing."""
+    xs = [lattice_coords(case["shape"], item_spacing(case, b), case["offset"]) for b in range(case["N"])]
+    return xs, [min(item_spacing(case, b)) for b in range(case["N"])]
 
 
 # ---------------------------------------------------------------------------------------
@@ -455,10 +590,10 @@ def bracket_cases(draw):
     case = draw(lattice())
     D = case["D"]
     case.update({
-        "N": draw(st.integers(1, 2)), "dtype": draw(gen.dtypes()),
+        "N": draw(st.integers(1, 3)), "dtype": draw(gen.dtypes()),
         "mode": draw(st.sampled_from(FD_MODES)), "sigma": draw(st.sampled_from([None, None, 1.0, 0.7])),
         "use_default_spacing": draw(st.sampled_from([False, False, False, True])),
-        "spacing_form": draw(st.sampled_from(["list", "scalar", "tensor"])),
+        "spacing_form": draw(st.sampled_from(["list", "scalar", "tensor", "tensor_items"])),
         "alpha": draw(gen.qfloat(-2.0, 2.0, 0.05)), "beta": draw(gen.qfloat(-2.0, 2.0, 0.05)),
         "key": draw(st.integers(0, 10 ** 6)),
         "u": free_params(draw, D), "v": free_params(draw, D),
@@ -467,14 +602,14 @@ def bracket_cases(draw):
     return case
 
 
-def generic_fields(case, x):
-    """Three (N, D, ..., X) float64 arrays of 'arbitrary' content."""
+def generic_fields(case, xs):
+    """Three (N, D, ..., X) float64 arrays of 'arbitrary' content (xs: lattice coordinates per batch item)."""
     D, shape, N = case["D"], case["shape"], case["N"]
     out = []
     for m in range(3):
         if case["content"] == "affine":
             H = raw_gen(case["u"] if m != 1 else case["v"], D, 1.0 if m < 2 else -0.5)
-            f = np.stack([affine_field(H / (b + 1), x) for b in range(N)])
+            f = np.stack([affine_field(H / (b + 1), xs[b]) for b in range(N)])
             if m == 2:
                 f = f + hash_noise(f.shape, case["key"] + 2, -0.2, 0.2)
         else:
@@ -491,15 +626,14 @@ def run_bracket(case):
     D, shape, N = case["D"], case["shape"], case["N"]
     dt = tdtype(case["dtype"])
     eps = eps_of(dt)
-    sp = case["spacing"]
-    x = lattice_coords(shape, sp, case["offset"])
+    xs, smins = item_lattices(case)
     kw = {"mode": case["mode"], "sigma": case["sigma"]}
     if case["use_default_spacing"]:
         smin = float(unit_of(shape, True).min())  # documented default of flow_derivatives: 2/(n-1)
     else:
         kw["spacing"] = spacing_arg(case)
-        smin = min(sp)
-    f1, f2, g = [torch.tensor(a, dtype=dt) for a in generic_fields(case, x)]
+        smin = min(smins)
+    f1, f2, g = [torch.tensor(a, dtype=dt) for a in generic_fields(case, xs)]
     al, be = case["alpha"], case["beta"]
 
     def lb(a, b):
@@ -523,18 +657,28 @@ def run_bracket(case):
                                    "bracket_linear_first", "[a v1 + b v2, u] != a [v1,u] + b [v2,u]"))
     worst = max(worst, check_close(lb(g, lin), al * b21.double() + be * lb(g, f2).double(), rb * c,
                                    "bracket_linear_second", "[v, a u1 + b u2] != a [v,u1] + b [v,u2]"))
+    # batch items are independent fields: item b of the batched result is the bracket of the items b alone
+    # (same rounding bound; with a per-item spacing tensor the row of that item is passed)
+    if N > 1:
+        for b in range(N):
+            kwb = dict(kw)
+            if isinstance(kw.get("spacing"), torch.Tensor):
+                kwb["spacing"] = spacing_arg(case, items=[b])
+            single = U.lie_bracket(f1[b:b + 1], g[b:b + 1], **kwb)
+            worst = max(worst, check_close(b12[b:b + 1], single.double(), rb, "bracket_batch_item",
+                                           f"item {b} of lie_bracket(v, u) on a batch of {N} != lie_bracket(v[{b}], u[{b}])"))
     # analytic value on affine fields (exact for forward/central/backward differences, no smoothing)
     analytic = case["mode"] in (None, "forward_central_backward") and not case["sigma"] and not case["use_default_spacing"]
     nz = False
     if analytic:
         models, us, vs = [], [], []
         for b in range(N):
-            Fu = AField(hom_gen(raw_gen(case["u"], D, 1.0 / (b + 1))), x, 0.0)
-            Fv = AField(hom_gen(raw_gen(case["v"], D, 1.0 / (b + 1))), x, 0.0)
+            Fu = AField(hom_gen(raw_gen(case["u"], D, 1.0 / (b + 1))), xs[b], 0.0)
+            Fv = AField(hom_gen(raw_gen(case["v"], D, 1.0 / (b + 1))), xs[b], 0.0)
             Fu.err, Fv.err = eps * Fu.fmax, eps * Fv.fmax
             us.append(Fu.vals)
             vs.append(Fv.vals)
-            models.append(bracket_model(Fv, Fu, x, eps, smin))
+            models.append(bracket_model(Fv, Fu, xs[b], eps, smins[b]))
         got = U.lie_bracket(torch.tensor(np.stack(vs), dtype=dt), torch.tensor(np.stack(us), dtype=dt), **kw)
         for b, m in enumerate(models):
             nz = nz or float(np.abs(m.vals).max()) > 1e-2
@@ -555,11 +699,11 @@ def bch_affine_cases(draw):
     case = draw(lattice(hi2=9, hi3=6))
     D = case["D"]
     case.update({
-        "N": draw(st.integers(1, 2)), "dtype": draw(gen.dtypes()),
+        "N": draw(st.integers(1, 3)), "dtype": draw(gen.dtypes()),
         "pair": draw(st.sampled_from(["general", "general", "general", "scalar_multiple", "translations", "diagonal",
                                       "generic_scalar_multiple"])),
         "mode": draw(st.sampled_from(["forward_central_backward", "forward_central_backward", None])),
-        "spacing_form": draw(st.sampled_from(["list", "scalar", "tensor"])),
+        "spacing_form": draw(st.sampled_from(["list", "scalar", "tensor", "tensor_items"])),
         "u": free_params(draw, D), "v": free_params(draw, D),
         "c": draw(gen.qfloat(-2.0, 2.0, 0.05)),
         "key": draw(st.integers(0, 10 ** 6)),
@@ -567,14 +711,21 @@ def bch_affine_cases(draw):
     return case
 
 
+ITEM_C = (1.0, -0.5, 0.75)  # factor of the generated multiplier c for batch item b (commuting pairs)
+
+
 def pair_generators(case, b):
-    """(Hu, Hv) of batch item b for the pair kind."""
+    """(Hu, Hv) of batch item b for the pair kind.  Items are built from different generators (roles of the two
+    generated parameter sets swapped for odd b, scaled by 1/(b+1)), so that fields of *different* items neither
+    commute nor are multiples of each other: pairing data of the wrong item is observable also for commuting pairs."""
     D = case["D"]
     Hu = raw_gen(case["u"], D, 1.0 / (b + 1))
     Hv = raw_gen(case["v"], D, 1.0 / (b + 1))
+    if b % 2 == 1:
+        Hu, Hv = Hv, Hu
     kind = case["pair"]
     if kind == "scalar_multiple":
-        Hv = case["c"] * Hu
+        Hv = case["c"] * ITEM_C[b % 3] * Hu
     elif kind == "translations":
         Hu[:, :D] = 0.0
         Hv[:, :D] = 0.0
@@ -590,9 +741,8 @@ def run_bch_affine(case):
     D, shape, N = case["D"], case["shape"], case["N"]
     dt = tdtype(case["dtype"])
     eps = eps_of(dt)
-    sp = case["spacing"]
-    smin = min(sp)
-    x = lattice_coords(shape, sp, case["offset"])
+    xs, smins = item_lattices(case)
+    smin = min(smins)
     kw = {"mode": case["mode"], "spacing": spacing_arg(case)}
     commuting = case["pair"] != "general"
     worst = 0.0
@@ -601,8 +751,9 @@ def run_bch_affine(case):
         # any field commutes with its scalar multiples: [c f, f] = c (J f - J f) = 0 for a linear derivative operator
         f = hash_noise((N, D) + tuple(shape), case["key"], -1.0, 1.0)
         f = 0.3 * f + np.stack([vox_smooth(shape, [1 + k % 2 for k in range(D)], 1.0) for _ in range(N)])
+        cs = np.array([case["c"] * ITEM_C[b % 3] for b in range(N)]).reshape((N,) + (1,) * (D + 1))  # per item
         u = torch.tensor(f, dtype=dt)
-        v = torch.tensor(case["c"] * f, dtype=dt)
+        v = torch.tensor(cs * f, dtype=dt)
         R = max(float(u.abs().max()), float(v.abs().max()))
         j = 2 * R / smin
         e1 = 64 * eps * D * j * R  # rounding of one bracket (as in bracket_algebra)
@@ -619,11 +770,11 @@ def run_bch_affine(case):
         us, vs, models = [], [], []
         for b in range(N):
             Hu, Hv = pair_generators(case, b)
-            Fu, Fv = AField(hom_gen(Hu), x, 0.0), AField(hom_gen(Hv), x, 0.0)
+            Fu, Fv = AField(hom_gen(Hu), xs[b], 0.0), AField(hom_gen(Hv), xs[b], 0.0)
             Fu.err, Fv.err = eps * Fu.fmax, eps * Fv.fmax
             us.append(Fu.vals)
             vs.append(Fv.vals)
-            models.append(bch_model(Fu, Fv, x, eps, smin))
+            models.append(bch_model(Fu, Fv, xs[b], eps, smins[b]))
         u = torch.tensor(np.stack(us), dtype=dt)
         v = torch.tensor(np.stack(vs), dtype=dt)
         for k in range(6):
@@ -673,7 +824,7 @@ def bch_smooth_cases(draw):
         "amp": draw(gen.qfloat(0.1, 1.0, 0.05)), "ratio": draw(st.sampled_from([-1.0, -0.8, -0.5, 0.5, 0.8, 1.0])),
         "waves_u": draw(st.lists(st.integers(1, 2), min_size=D, max_size=D)),
         "waves_v": draw(st.lists(st.integers(1, 2), min_size=D, max_size=D)),
-        "steps": draw(st.integers(5, 7)),
+        "steps": draw(st.integers(2, 8)),
         "spacing_given": draw(st.booleans()),
     }
 
@@ -718,7 +869,10 @@ def run_bch_smooth(case):
     of 1e-3 a (heavy tail: 0.105 on 5.7k cases, 0.204 on 16.9k).
     Calibration (fixed tree, 16906 distinct generated cases, 20 seeds): largest (e_{k+1} - e_k) / (e_0 + 0.01 a) =
     0.066 (per k: 0.051, 0.066, 0.033, 0.007, 0.009; unchanged between 5.7k and 16.9k cases); GROWTH = 0.25 keeps a
-    factor 3.8.  A sign error of the first-order term gives e_1 ~ 2 e_0, a growth of ~1.0 on this scale."""
+    factor 3.8 (steps 5..7).  Re-measured after widening the generated steps to 2..8 (3238 distinct cases per value):
+    steps=2: 0.059, 3: 0.060, 4: 0.047, 8: 0.046, i.e. the statistic does not depend on the step count (all
+    exponentials of a case use the same one).  A sign error of the first-order term gives e_1 ~ 2 e_0, a growth of
+    ~1.0 on this scale."""
     errs = bch_errors(case)
     a = case["amp"]
     scale = errs[0] + FLOOR * a
@@ -741,6 +895,8 @@ def run_bch_smooth(case):
 
 LOG_C2 = 0.5  # |logv(expv(v)) - v| <= kappa (LOG_C2 a^2 + LOG_C1 a) samples, kappa = D (pi w_max / (n_min - 1))^2
 LOG_C1 = 0.25
+LOG_STEPS = (3, 7)  # generated range of expv(steps=) and logv(exp_steps=), even and odd, independently drawn
+LOG_ITERS = (1, 6)  # generated range of logv(num_iters=); 0 returns the input itself (only in convention_independence)
 
 
 @st.composite
@@ -748,42 +904,83 @@ def log_exp_cases(draw):
     D = draw(gen.dims())
     lo, hi = (12, 40) if D == 2 else (12, 18)
     shape = draw(st.lists(st.integers(lo, hi), min_size=D, max_size=D))
+    steps = st.one_of(st.none(), st.integers(LOG_STEPS[0], LOG_STEPS[1]))
     return {
-        "D": D, "shape": shape, "dtype": draw(gen.dtypes()), "N": draw(st.sampled_from([1, 1, 2])),
+        "D": D, "shape": shape, "dtype": draw(gen.dtypes()), "N": draw(st.sampled_from([1, 1, 2, 3])),
+        # amplitude (samples) of the scaled velocity field scale * v that is exponentiated; v = field / scale
         "amp": draw(gen.qfloat(0.05, 2.0, 0.05)), "waves": draw(st.lists(st.integers(1, 2), min_size=D, max_size=D)),
-        "noise": 0.0, "key": 0,
+        "noise": 0.0, "key": 0, "vary_items": True,
+        # expv arguments (None: omitted)
+        "steps": draw(steps), "scale": draw(scales()), "inverse": draw(st.booleans()),
+        # logv arguments (None / "default": omitted)
+        "exp_steps": draw(steps), "iters": draw(st.one_of(st.none(), st.integers(LOG_ITERS[0], LOG_ITERS[1]))),
+        "bch_terms": draw(st.one_of(st.none(), st.integers(0, 5))),
+        "sigma": draw(st.sampled_from(["default", None, 0.5, 1.0, 1.5])),
+        "spacing_form": draw(st.sampled_from(["list", "list", "tensor"])),  # per-axis list or (N, D) tensor
     }
 
 
 def run_log_exp(case):
+    """logv(expv(v, scale=s, steps=k, inverse=i), num_iters=m, bch_terms=b, sigma=g, exp_steps=k') = +-s v within
+    kappa (LOG_C2 a^2 + LOG_C1 a) samples, a = amplitude of s v.  Every argument is generated (or omitted); the
+    bound does not depend on them on the stated domain (steps in LOG_STEPS, iterations in LOG_ITERS), see
+    ASSUMPTIONS for the measurement."""
     from deepali.core import functional as U
 
     D, shape = case["D"], case["shape"]
     dt = tdtype(case["dtype"])
     eps = eps_of(dt)
-    fv = voxel_fields(case)
+    fv = voxel_fields(case, vary_items=bool(case.get("vary_items")))  # the scaled field s v, i.e. the expected logarithm
+    sc = signed_scale(case)
     a = case["amp"]
     out = {}
     worst = 0.0
     kappa = D * (math.pi * max(case["waves"]) / (min(shape) - 1)) ** 2  # curvature of the field in index units / a
-    bound = kappa * (LOG_C2 * a * a + LOG_C1 * a)
+    L = lipschitz(fv)
+    P = advection_size(fv)
+    ke, kl = case.get("steps") or 5, case.get("exp_steps") or 5  # documented default of expv: 5 steps
+    iters = 5 if case.get("iters") is None else case["iters"]
+    # (1) discretisation floor (calibrated form, see ASSUMPTIONS): interpolation error of the compositions
+    floor = kappa * (LOG_C2 * a * a + LOG_C1 * a)
+    # (2) derived: k squarings of id + w/2^k are 2^k Euler steps of size h = 2^-k, and id + h w =
+    # exp(h w - h^2/2 Dw.w + O(h^3)), so expv_k(w) = exp(w - h/2 Dw.w + O(h^2)).  logv looks for v' with
+    # expv_k'(-v') o expv_k(w) = id, i.e. -v' - h'/2 Dv'.v' = -(w - h/2 Dw.w): v' - w = -(h + h')/2 Dw.w to first
+    # order (the Euler errors of the forward and of the inverse exponential add up, they do not cancel).  Asserted
+    # with allowance 2 for the higher-order terms: (h + h') P, P = max |Dw.w| (central differences, float64 numpy).
+    euler = (2.0 ** -ke + 2.0 ** -kl) * P
+    # (3) iteration: the start value flow = exp(w) - id = w + Dw.w/2 + ... is off by ~P/2; one iteration with the
+    # plain sum (bch_terms=0) leaves the first-order BCH remainder [d, w]/2 of the error d, of size ~ slope of w
+    # times |d| when d varies on the scale of w; more BCH terms converge faster.  Asserted: P min(1, L)^iters
+    # (L = largest adjacent-sample difference of w), which is P for num_iters=0 (logv returns flow itself).
+    start = P * min(1.0, L) ** iters
+    bound = floor + euler + start
+    ekw, lkw = expv_kwargs(case), logv_kwargs(case)
     for ac in (True, False):
-        v = torch.tensor(to_norm(fv, shape, ac), dtype=dt)
-        e = U.expv(v, align_corners=ac)
-        r = U.logv(e, spacing=[float(s) for s in unit_of(shape, ac)], align_corners=ac)
+        v = torch.tensor(to_norm(fv / sc, shape, ac), dtype=dt)
+        e = U.expv(v, align_corners=ac, **ekw)
+        sp = [float(s) for s in unit_of(shape, ac)]  # anisotropic for non-cubic shapes
+        if case.get("spacing_form") == "tensor":
+            sp = torch.tensor([sp] * case["N"], dtype=torch.float64)
+        r = U.logv(e, spacing=sp, align_corners=ac, **lkw)
         if r.shape != v.shape:
             raise Violation("log_exp_shape", f"logv result shape {tuple(r.shape)} != {tuple(v.shape)}")
         out[ac] = to_vox(r, shape, ac)
         worst = max(worst, check_close(out[ac], fv, bound, "log_exp_bound",
-                                       f"|logv(expv(v)) - v| (samples) vs kappa ({LOG_C2} a^2 + {LOG_C1} a), a={a}, kappa={kappa:.4g}, align_corners={ac}"))
+                                       f"|logv(expv(v, {ekw}), {lkw}) - scale v| (samples) vs kappa ({LOG_C2} a^2 + {LOG_C1} a) + "
+                                       f"(2^-steps + 2^-exp_steps + min(1, L)^iters) P, a={a}, kappa={kappa:.4g}, L={L:.3g}, "
+                                       f"P={P:.3g}, align_corners={ac}"))
     n = max(shape)
-    L = lipschitz(fv)
-    base = 64 * eps * (n * max(L, 0.05) + max(a, 1.0))
-    rb = 5 * (base * 6 * math.exp(math.expm1(min(L, 2.0))) + base + 64 * EPS32 * D * max(L, 0.05) * max(a, 1.0))
+    steps = max(ke, kl)
+    bt = 1 if case.get("bch_terms") is None else case["bch_terms"]
+    rb = rounding_bound(eps, n, a * max(1.0, 1.0 / abs(sc)), L, D, steps, iters, bt)
     r2 = check_close(out[True], out[False], rb, "convention_dependent_logv",
                      f"voxel-space logv(expv(v)) differs between align_corners=True and False (a={a}, shape={shape})")
     return {"ratio": max(worst, r2), "nontrivial": a >= 0.5 and len(set(shape)) > 1,
-            "labels": [f"D={D}", case["dtype"], f"N={case['N']}", "a>=1" if a >= 1 else "a<1"]}
+            "labels": [f"D={D}", case["dtype"], f"N={case['N']}", "a>=1" if a >= 1 else "a<1",
+                       f"steps={case.get('steps')}", f"exp_steps={case.get('exp_steps')}",
+                       "scale=omitted" if case.get("scale") is None else ("scale<0" if case["scale"] < 0 else "scale>0"),
+                       f"inverse={bool(case.get('inverse'))}", f"iters={case.get('iters')}",
+                       f"bch_terms={case.get('bch_terms')}", f"sigma={case.get('sigma', 'default')}"]}
 
 
 # ---------------------------------------------------------------------------------------
@@ -797,24 +994,31 @@ FACETS = [
           quick=800, thorough=16000, shards=16, quick_shards=2),
     Facet("convention_independence", run_convention, strategy=convention_cases,
           rule="voxel-space smooth (+hash-noise) fields of amplitude 0.1..3 samples, op in {compose_flows, expv, logv}, "
-               "N in 1..2, f32/f64; non-trivial = amplitude >= 0.3 samples and non-cubic shape",
+               "N in 1..2, f32/f64; expv: steps omitted or 0..7, scale omitted or +-[0.25, 4], inverse; logv: steps / "
+               "exp_steps omitted or 2..7, num_iters omitted or 0..6, bch_terms omitted or 0..5, sigma omitted / None / "
+               "0.5 / 1 / 1.5; non-trivial = amplitude >= 0.3 samples and non-cubic shape",
           quick=400, thorough=6000, shards=16, quick_shards=2),
     Facet("bracket_algebra", run_bracket, strategy=bracket_cases,
           rule="noise / smooth+noise / affine fields on lattices with cube or generated (an)isotropic spacing, all finite "
-               "difference modes, optional Gaussian pre-smoothing, spacing as list/scalar/(N,D) tensor/default; analytic value "
+               "difference modes, optional Gaussian pre-smoothing, spacing as list/scalar/(N,D) tensor with equal or different "
+               "rows/default, N in 1..3 (items compared with per-item calls); analytic value "
                "for forward_central_backward without smoothing; non-trivial = non-cubic shape and non-zero analytic bracket",
-          quick=400, thorough=8000, shards=16, quick_shards=3),
+          quick=400, thorough=6000, shards=16, quick_shards=3),
     Facet("bch_exact_affine", run_bch_affine, strategy=bch_affine_cases,
           rule="free affine generator pairs |entries| <= 1 (general; commuting: scalar multiple, translations, diagonal, "
-               "generic field and its multiple), every bch_terms 0..5 per case; non-trivial = bracket not ~0 (general) "
+               "generic field and its multiple), N in 1..3 with items built from different generators and multipliers, spacing "
+               "forms as in bracket_algebra, every bch_terms 0..5 per case; non-trivial = bracket not ~0 (general) "
                "/ both fields non-zero (commuting), non-cubic shape",
-          quick=400, thorough=8000, shards=16, quick_shards=3),
+          quick=400, thorough=6000, shards=16, quick_shards=3),
     Facet("bch_smooth", run_bch_smooth, strategy=bch_smooth_cases,
           rule="pairs of band-limited fields (wave numbers 1..2) vanishing at the boundary, amplitude 0.1..1 samples, "
-               "amplitude ratio in +-{0.5, 0.8, 1}; non-trivial = e_0 >= 0.01 a and a >= 0.3",
+               "amplitude ratio in +-{0.5, 0.8, 1}, steps 2..8; non-trivial = e_0 >= 0.01 a and a >= 0.3",
           quick=160, thorough=3000, shards=16, quick_shards=2),
     Facet("log_exp", run_log_exp, strategy=log_exp_cases,
           rule="band-limited fields vanishing at the boundary, amplitude 0.05..2 samples, grids >= 12 per axis, both "
-               "conventions per case, N in 1..2; non-trivial = a >= 0.5 and non-cubic shape",
+               "conventions per case, N in 1..3 (different field per item); expv steps and logv exp_steps independently "
+               "omitted or 3..7, scale omitted or +-[0.25, 4], inverse, num_iters omitted or 1..6, bch_terms omitted or "
+               "0..5, sigma omitted / None / 0.5 / 1 / 1.5, spacing list or (N, D) tensor; non-trivial = a >= 0.5 and "
+               "non-cubic shape",
           quick=100, thorough=2000, shards=16, quick_shards=2),
 ]
